@@ -23,16 +23,20 @@ import (
 type sessAction struct {
 	Op  string `json:"op"`  // connect | transfer | close_client | close_server | wait | intruder | early_dial
 	Arg int    `json:"arg"` // ms / bytes / offset depending on Op
+	// Early (connect only): call Dial while the previous connection is still
+	// open; it must block until that connection is closed.
+	Early bool `json:"early,omitempty"`
 }
 
 type c11Case struct {
 	Seed      uint64       `json:"seed"`
-	ClientMax int          `json:"client_max"` // client's max handshake version (server supports 0..2)
+	ClientMax int          `json:"server_max"` // the server's max handshake version (the client, always updated first, supports 0..2)
 	LatMs     int          `json:"lat_ms"`
 	Actions   []sessAction `json:"actions"`
 }
 
 type c11Outcome struct {
+	knownHits   []string
 	violation   string
 	labels      []string
 	log         []string
@@ -47,7 +51,7 @@ type liveConn struct {
 	done   <-chan struct{}
 }
 
-func runC11(t *testing.T, c *c11Case) (out c11Outcome) {
+func runC11(t *testing.T, c *c11Case, known func(string) bool) (out c11Outcome) {
 	logf := func(f string, a ...any) {
 		if len(out.log) < 200 {
 			out.log = append(out.log, fmt.Sprintf(f, a...))
@@ -142,7 +146,7 @@ func runC11(t *testing.T, c *c11Case) (out c11Outcome) {
 			go func() {
 				defer close(s.closed)
 				s.pattern = cdS.HandshakePattern().Name
-				nconn := mailbox.NewNoiseGrpcConn(cdS)
+				nconn := mailbox.NewNoiseGrpcConn(cdS, mailbox.WithMaxHandshakeVersion(byte(c.ClientMax)))
 				sec, _, err := nconn.ServerHandshake(lc.raw)
 				s.hsErr = err
 				if err == nil {
@@ -168,6 +172,18 @@ func runC11(t *testing.T, c *c11Case) (out c11Outcome) {
 			return s
 		}
 
+		stuck := false
+		wedged := false
+		waitCh := func(ch <-chan struct{}, d time.Duration, what string) bool {
+			select {
+			case <-ch:
+				return true
+			case <-time.After(d):
+				fail("%s did not happen within %v", what, d)
+				stuck = true
+				return false
+			}
+		}
 		var (
 			cur     *liveConn   // client side of the live connection
 			curSrv  *srvSession
@@ -191,25 +207,53 @@ func runC11(t *testing.T, c *c11Case) (out c11Outcome) {
 			}
 			return true
 		}
+		var closeBoth func()
 		// dialOnce: one Dial + client handshake against whatever the accept
 		// loop hands out; returns true if a secured pair is up.
-		dialOnce := func(offsetMs int) bool {
+		dialOnce := func(offsetMs int, early bool) bool {
 			type dres struct {
 				conn net.Conn
 				err  error
 			}
 			dc := make(chan dres, 1)
-			go func() {
-				time.Sleep(ms(offsetMs))
-				conn, err := cli.Dial(context.Background(), "")
-				dc <- dres{conn, err}
-			}()
+			if early && alive() {
+				prevDone := cur.done
+				go func() {
+					conn, err := cli.Dial(context.Background(), "")
+					if err == nil {
+						select {
+						case <-prevDone:
+						default:
+							fail("Client.Dial returned while the previous connection was still open")
+						}
+					}
+					dc <- dres{conn, err}
+				}()
+				select {
+				case d := <-dc:
+					dc <- d
+					if alive() {
+						fail("a second Dial completed while the first connection is alive")
+					}
+				case <-time.After(ms(300 + offsetMs)):
+				}
+				closeBoth()
+				out.reconnects++
+				out.labels = append(out.labels, "dial_before_previous_closed")
+			} else {
+				go func() {
+					time.Sleep(ms(offsetMs))
+					conn, err := cli.Dial(context.Background(), "")
+					dc <- dres{conn, err}
+				}()
+			}
 			var d dres
 			select {
 			case d = <-dc:
-			case <-time.After(90 * time.Second):
-				logf("%v dial still blocked after 90s", time.Since(start))
-				d = <-dc
+			case <-time.After(150 * time.Second):
+				fail("Client.Dial still blocked after 150s although the relay is healthy and the server is accepting")
+				stuck = true
+				return false
 			}
 			if d.err != nil {
 				logf("%v dial error: %v", time.Since(start), d.err)
@@ -235,13 +279,15 @@ func runC11(t *testing.T, c *c11Case) (out c11Outcome) {
 			}
 			ss := handle(a.lc)
 			pat := cdC.HandshakePattern().Name
-			nconn := mailbox.NewNoiseGrpcConn(cdC, mailbox.WithMaxHandshakeVersion(byte(c.ClientMax)))
+			nconn := mailbox.NewNoiseGrpcConn(cdC)
 			sec, _, err := nconn.ClientHandshake(context.Background(), "", d.conn)
-			<-ss.hsDone
+			if !waitCh(ss.hsDone, 60*time.Second, "server handshake return") {
+				return false
+			}
 			if err != nil || ss.hsErr != nil {
 				logf("%v noise handshake failed: client %v server %v", time.Since(start), err, ss.hsErr)
 				_ = d.conn.Close()
-				<-ss.closed
+				waitCh(ss.closed, 60*time.Second, "server handler exit after a failed handshake")
 				return false
 			}
 			if pat != ss.pattern {
@@ -266,18 +312,21 @@ func runC11(t *testing.T, c *c11Case) (out c11Outcome) {
 			}
 			return true
 		}
-		closeBoth := func() {
-			if cur != nil {
-				_ = cur.secure.Close()
-				<-curSrv.closed
-				<-curSrv.lc.done
+		closeBoth = func() {
+			if cur != nil && !stuck {
+				cdone := make(chan struct{})
+				go func() { _ = cur.secure.Close(); close(cdone) }()
+				if waitCh(cdone, 60*time.Second, "client Close return") &&
+					waitCh(curSrv.closed, 60*time.Second, "server handler exit after the client closed") {
+					waitCh(curSrv.lc.done, 60*time.Second, "server conn Done after its Close")
+				}
 			}
 			cur, curSrv = nil, nil
 		}
-		connect := func(offsetMs int) bool {
+		connect := func(offsetMs int, early bool) bool {
 			t0 := time.Now()
-			for attempt := 0; attempt < 12; attempt++ {
-				if dialOnce(offsetMs) {
+			for attempt := 0; attempt < 12 && !stuck; attempt++ {
+				if dialOnce(offsetMs, early && attempt == 0) {
 					// does it survive the first seconds (a late duplicate SYN
 					// reply may still kill it) and carry bytes?
 					p := entropy(c.Seed, fmt.Sprintf("probe/%d/%d", out.reconnects, attempt), 33)
@@ -288,30 +337,39 @@ func runC11(t *testing.T, c *c11Case) (out c11Outcome) {
 					logf("%v connection died right after setup", time.Since(start))
 					closeBoth()
 				}
-				if out.violation != "" {
+				mu.Lock()
+				bad := out.violation != ""
+				mu.Unlock()
+				if bad {
 					return false
 				}
+			}
+			if stuck {
+				return false
 			}
 			fail("no working connection after 12 dial attempts (%v of virtual time) although the relay is healthy", time.Since(t0))
 			return false
 		}
 
 		for _, a := range c.Actions {
-			if out.violation != "" {
+			mu.Lock()
+			bad := out.violation != ""
+			mu.Unlock()
+			if bad || stuck || wedged {
 				break
 			}
 			switch a.Op {
 			case "connect":
-				if alive() {
+				if alive() && !a.Early {
 					skipped++
 					continue
 				}
-				if cur != nil {
+				if cur != nil && !alive() {
 					closeBoth()
 					out.reconnects++
 				}
 				hadKeys := cdC.RemoteKey() != nil && cdS.RemoteKey() != nil
-				if !connect(a.Arg) {
+				if !connect(a.Arg, a.Early) {
 					break
 				}
 				if hadKeys {
@@ -382,55 +440,34 @@ func runC11(t *testing.T, c *c11Case) (out c11Outcome) {
 						fail("client read succeeded after the server closed")
 					}
 				case <-time.After(30 * time.Second):
-					fail("client Read still blocked 30s after the server closed the connection")
+					// Known finding: at the post-pairing switch the server's
+					// next Accept deletes the old mailboxes (Stop) together
+					// with the FIN still queued in them; the client's
+					// transport then retries "stream not found" forever
+					// inside the GBN send/recv callbacks, which also blocks
+					// the keepalive, so the client never notices.
+					cc := cur.raw.(*mailbox.ClientConn)
+					rid := cc.RemoteAddr().(*mailbox.Addr).SID
+					_, evs := r.Snapshot()
+					deleted := false
+					for _, e := range evs {
+						if e.Op == "del" && e.Stream == string(rid[:]) {
+							deleted = true
+						}
+					}
+					if deleted && known("mailbox-client-hangs-after-mailbox-deleted") {
+						out.knownHits = append(out.knownHits, "mailbox-client-hangs-after-mailbox-deleted")
+						logf("%v known finding: client hangs after its mailboxes were deleted", time.Since(start))
+						// the wedged client cannot even Close (its retry loop
+						// holds the send mutex the FIN needs): end the session
+						// here; cancelling the client's context unwinds it.
+						wedged = true
+					} else {
+						fail("client Read still blocked 30s after the server closed the connection")
+					}
 				}
 			case "wait":
 				time.Sleep(ms(a.Arg))
-			case "early_dial":
-				// a second Dial while the connection is open must block until
-				// it is closed
-				if !alive() {
-					skipped++
-					continue
-				}
-				prevDone := cur.done
-				dc := make(chan error, 1)
-				go func() {
-					conn, err := cli.Dial(context.Background(), "")
-					if err == nil {
-						select {
-						case <-prevDone:
-						default:
-							fail("Client.Dial returned while the previous connection was still open")
-						}
-						// hand the connection to the normal path: close it so
-						// that state stays simple
-						_ = conn.Close()
-					}
-					dc <- err
-				}()
-				select {
-				case <-dc:
-					if alive() {
-						fail("a second Dial completed while the first connection is alive")
-					}
-				case <-time.After(ms(500 + a.Arg)):
-				}
-				closeBoth()
-				// let the early dial finish its attempt against the accept loop
-				select {
-				case <-dc:
-				case <-time.After(120 * time.Second):
-					logf("early dial still pending after 120s")
-				}
-				// drain an accepted conn that the early dial may have produced
-				select {
-				case a := <-acceptCh:
-					_ = a.lc.raw.Close()
-				case <-time.After(10 * time.Second):
-				}
-				prevCli = nil
-				out.reconnects++
 			case "intruder":
 				// a different client that only knows the passphrase
 				if cdS.RemoteKey() == nil {
@@ -481,10 +518,19 @@ func runC11(t *testing.T, c *c11Case) (out c11Outcome) {
 				}
 			}
 		}
+		if wedged {
+			ccancel()
+			cur, curSrv = nil, nil
+		}
 		closeBoth()
 		ccancel()
-		_ = srv.Close()
-		srvWG.Wait()
+		sdone := make(chan struct{})
+		go func() { _ = srv.Close(); srvWG.Wait(); close(sdone) }()
+		select {
+		case <-sdone:
+		case <-time.After(90 * time.Second):
+			fail("Server.Close / the accept loop did not finish within 90s")
+		}
 		if skipped > 0 {
 			out.labels = append(out.labels, "some_actions_skipped")
 		}
@@ -550,9 +596,11 @@ func genC11(t *rapid.T) *c11Case {
 	c.LatMs = rapid.SampledFrom([]int{0, 1, 50}).Draw(t, "lat")
 	c.Actions = []sessAction{{Op: "connect", Arg: rapid.SampledFrom([]int{0, 0, 1, 500, 3000}).Draw(t, "first_offset")}}
 	ag := rapid.Custom(func(t *rapid.T) sessAction {
-		op := rapid.SampledFrom([]string{"connect", "connect", "transfer", "transfer", "close_client", "close_server", "wait", "intruder", "early_dial"}).Draw(t, "op")
+		op := rapid.SampledFrom([]string{"connect", "connect", "transfer", "transfer", "close_client", "close_server", "wait", "intruder", "connect_early"}).Draw(t, "op")
 		var arg int
 		switch op {
+		case "connect_early":
+			return sessAction{Op: "connect", Arg: rapid.SampledFrom([]int{0, 500, 3000}).Draw(t, "offset"), Early: true}
 		case "connect":
 			arg = rapid.SampledFrom([]int{0, 0, 1, 500, 3000, 9000}).Draw(t, "offset")
 		case "wait":
@@ -572,7 +620,7 @@ func TestC11Session(t *testing.T) {
 	var rc c11Case
 	if stats.ReplayCase(unit, &rc) {
 		for i := 0; i < 2; i++ {
-			if o := runC11(t, &rc); o.violation != "" {
+			if o := runC11(t, &rc, func(string) bool { return false }); o.violation != "" {
 				rec.Violation(o.violation, "c11", rc)
 				t.Fatalf("%s\n%s", o.violation, strings.Join(o.log, "\n"))
 			}
@@ -597,12 +645,15 @@ func TestC11Session(t *testing.T) {
 			wg.Add(1)
 			go func() {
 				defer wg.Done()
-				outs[i] = runC11(t, cases[i])
+				outs[i] = runC11(t, cases[i], rec.IsKnown)
 			}()
 		}
 		wg.Wait()
 		for i, o := range outs {
 			c := cases[i]
+			for _, k := range o.knownHits {
+				rec.KnownHit(k)
+			}
 			rec.Case(o.nontrivial, fmt.Sprintf("%+v", *c), o.labels...)
 			if o.nontrivial && rec.WantSample() {
 				rec.Sample(c)
